@@ -28,7 +28,7 @@ ID = 'C11'
 ANCHORS = ['mido.ports', 'mido.sockets']
 LEVEL = 'fault_enumeration'
 RULE = ('all operation sequences of length <= 4 (quick) / <= 5 (thorough) over {send, poll, '
-        'iter_pending, blocking receive, iterate, close, with-block, __del__, repr} on a recording '
+        'iter_pending, blocking receive, iterate, close, with-block, __del__, repr, reset, panic} on a recording '
         'device port (autoreset on/off, device refusing sends during reset), EchoPort and '
         'IOPort over two doubles, x device supply (0 or 3 messages, taken in 1 or all per call) x '
         'every position at which the device closes itself (never, before the first message, after '
@@ -71,21 +71,39 @@ class SleepHook:
         self.plan = {}
         self.on_arrive = None
         self.on_close = None
+        self.limit = SLEEP_LIMIT
+        self.extra = []          # time.sleep() calls made by mido.ports besides sleep() itself
 
-    def arm(self, plan, on_arrive, on_close):
+    def arm(self, plan, on_arrive, on_close, limit=None):
+        self.limit = limit or SLEEP_LIMIT
+        self.extra = []
         self.n = 0
         self.plan = dict(plan)
         self.on_arrive, self.on_close = on_arrive, on_close
 
     def __call__(self):
         self.n += 1
-        if self.n > SLEEP_LIMIT:
-            raise HarnessAbort('blocking call still sleeping after %d sleeps' % SLEEP_LIMIT)
+        if self.n > self.limit:
+            raise HarnessAbort('blocking call still sleeping after %d sleeps' % self.limit)
         ev = self.plan.get(self.n)
         if ev == 'arrive' and self.on_arrive:
             self.on_arrive()
         elif ev == 'close' and self.on_close:
             self.on_close()
+
+
+class TimeShim:
+    """Stands in for the `time` module inside mido.ports: since ports.sleep() is replaced by the
+    hook, any time.sleep() that still happens there is waiting the statement does not allow."""
+
+    def __init__(self, hook, real):
+        self._hook, self._real = hook, real
+
+    def sleep(self, d):
+        self._hook.extra.append(d)
+
+    def __getattr__(self, name):
+        return getattr(self._real, name)
 
 
 class Model:
@@ -132,6 +150,16 @@ class Model:
         ok = self._device_send(tag)
         return None if ok else 'OSError'
 
+    def burst(self, controls):
+        """reset() / panic(): nothing on a closed port, else one message per channel and control."""
+        if self.closed:
+            return None
+        for ch in range(16):
+            for c in controls:
+                if not self._device_send(('reset', ch, c)):
+                    return 'OSError'
+        return None
+
     def poll(self):
         if self.q:
             return self.q.pop(0)
@@ -167,7 +195,7 @@ class Model:
                 self.close()
 
 
-OPS = ('send', 'poll', 'iterp', 'recv', 'iter', 'close', 'with', 'del', 'repr')
+OPS = ('send', 'poll', 'iterp', 'recv', 'iter', 'close', 'with', 'del', 'repr', 'reset', 'panic')
 PLAN = {1: 'arrive', 3: 'close'}
 
 
@@ -263,6 +291,13 @@ def run_sequence(ctx, seq, cfg, hook):
                 else:
                     port.__del__()
                 want = got = None
+            elif op in ('reset', 'panic'):
+                want = model.burst((123, 121) if op == 'reset' else (120,))
+                try:
+                    getattr(port, op)()
+                    got = None
+                except OSError:
+                    got = 'OSError'
             elif op == 'repr':
                 want = 'closed' if model.closed else 'open'
                 r = repr(port)
@@ -278,8 +313,8 @@ def run_sequence(ctx, seq, cfg, hook):
         ctx.check('results == lifecycle model', ok, f'{key0}:{op}-differs', case,
                   lambda: {'op_index': oi, 'op': op, 'got': got, 'want': want})
         if op in ('recv', 'iter'):
-            ctx.check('blocking call bounded sleeps', hook.n <= sleeps[0] + 2, f'{key0}:{op}-too-many-sleeps',
-                      case, lambda: {'op_index': oi, 'sleeps': hook.n, 'model_sleeps': sleeps[0]})
+            ctx.check('blocking call bounded sleeps', hook.n <= sleeps[0] + 2 and not hook.extra, f'{key0}:{op}-too-many-sleeps',
+                      case, lambda: {'op_index': oi, 'sleeps': hook.n, 'model_sleeps': sleeps[0], 'extra_time_sleep': hook.extra[:3]})
         else:
             recv_calls = [e for e in log if e[1] == '_receive'][before_receives:]
             ctx.check('non-blocking call never waits', hook.n == 0 and all(e[2] is False for e in recv_calls)
@@ -499,6 +534,39 @@ def echo_blocking_cases(ctx, hook):
                     ctx.check('blocking call bounded sleeps', False, 'echo-blocking:never-returns', case, str(exc))
                 port.closed = True
                 n += 1
+    return n
+
+
+def long_idle_cases(ctx, hook):
+    """A blocking receive that has been polling an idle port for thousands of rounds returns as
+    promptly as a fresh one: within 2 further sleep() calls and without any other waiting."""
+    n = 0
+    for idle in (1100, 2500, 5000):
+        for kind in ('device', 'echo', 'multi'):
+            case = {'kind': 'long-idle', 'idle_polls': idle, 'port': kind}
+            log = []
+            if kind == 'device':
+                port = RecordingPort('r', log=log)
+                target = port
+                arrive = lambda: port.dev.append(dev_msg(1))  # noqa: E731
+            elif kind == 'echo':
+                port = RecEcho('e', log=log)
+                arrive = lambda: port.send(dev_msg(1))  # noqa: E731
+            else:
+                member = EchoPort('m')
+                port = MultiPort([member])
+                arrive = lambda: member.send(dev_msg(1))  # noqa: E731
+            hook.arm({idle: 'arrive'}, arrive, None, limit=idle + 50)
+            try:
+                m = port.receive()
+                ctx.check('results == lifecycle model', tag_of(m) == ('d', 1), 'long-idle:result', case, repr(m))
+                ctx.check('blocking call bounded sleeps', hook.n <= idle + 2 and not hook.extra, 'long-idle:extra-waiting', case,
+                          {'sleeps': hook.n, 'arrival_at': idle, 'extra_time_sleep_calls': len(hook.extra),
+                           'extra_seconds': round(sum(hook.extra), 4)})
+            except HarnessAbort as exc:
+                ctx.check('blocking call bounded sleeps', False, 'long-idle:never-returns', case, str(exc))
+            port.closed = True
+            n += 1
     return n
 
 
@@ -818,7 +886,9 @@ def run(ctx):
     L = 4 if ctx.tier == 'quick' else 5
     hook = SleepHook()
     orig = mido.ports.sleep
+    orig_time = mido.ports.time
     mido.ports.sleep = hook
+    mido.ports.time = TimeShim(hook, orig_time)
     n = 0
     try:
         cfgs = list(configs())
@@ -859,6 +929,10 @@ def run(ctx):
             k = multiport_selfclosing_member(ctx, hook)
             ctx.nontrivial(None, k)
             n += k
+        if ctx.shard == 2 % ctx.nshards:
+            k = long_idle_cases(ctx, hook)
+            ctx.nontrivial(None, k)
+            n += k
         if ctx.shard == 1 % ctx.nshards:
             k = socket_lifecycle_cases(ctx, hook)
             ctx.nontrivial(None, k)
@@ -870,6 +944,7 @@ def run(ctx):
             n += k
     finally:
         mido.ports.sleep = orig
+        mido.ports.time = orig_time
     n += concurrency_part(ctx, ctx.tier, lambda j: j % ctx.nshards == ctx.shard)
     sched.uninstall()
     ctx.count('cases', n)
@@ -890,6 +965,9 @@ def replay(ctx, case):
             multiport_cases(ctx, hook)
         elif k == 'helpers':
             helper_cases(ctx, hook)
+        elif k == 'long-idle':
+            mido.ports.time = TimeShim(hook, mido.ports.time)
+            long_idle_cases(ctx, hook)
         elif k == 'socket-lifecycle':
             socket_lifecycle_cases(ctx, hook)
         elif k == 'multi-selfclose':
